@@ -1,6 +1,8 @@
 package main
 
 import (
+	_ "embed"
+	"encoding/json"
 	"fmt"
 	"go/ast"
 	"go/token"
@@ -50,6 +52,10 @@ func undecided(format string, args ...interface{}) {
 }
 
 func loadWorld(repo string, overlay map[string][]byte, tags string) (*World, error) {
+	// per-world scratch state (values of an earlier world must not be kept alive or matched)
+	paramBind = map[*ssa.Parameter]ssa.Value{}
+	paramSubst = map[*ssa.Parameter]ssa.Value{}
+	renamedFns = map[*types.Func]string{}
 	env := append(os.Environ(), "GOFLAGS=-mod=mod", "GOPROXY=off", "GOSUMDB=off", "GOTOOLCHAIN=local", "GOWORK=off")
 	cfg := &packages.Config{
 		Mode:    packages.LoadSyntax | packages.NeedCompiledGoFiles | packages.NeedModule,
@@ -181,9 +187,160 @@ func (w *World) Field(rel, typ, field string) *types.Var {
 func (w *World) FuncObj(rel, recv, name string) *types.Func {
 	f := w.funcObjOpt(rel, recv, name)
 	if f == nil {
+		if g := w.renamedAnchor(rel, recv, name); g != nil {
+			return g
+		}
 		undecided("anchor function %s.%s.%s does not resolve", rel, recv, name)
 	}
+	w.recordAnchor(rel, recv, name, f)
 	return f
+}
+
+// ---- rename tracking of anchors ------------------------------------------------
+//
+// The rules name the functions they judge. A behaviour-preserving rename of an
+// unexported function would leave the rule without its construct. anchors.json
+// (written by `ycheck -property all -snapshot-anchors`, committed, embedded) keeps
+// for every anchor its receiver, its signature (types only) and the set of
+// callees; when a name no longer resolves, the one function of the same package
+// with the same receiver and signature whose callee set is closest to the
+// recorded one (Jaccard ≥ 0.6, clearly ahead of the runner-up, and not itself a
+// recorded anchor) is taken to be the renamed anchor, and the run says so.
+
+type anchorFP struct {
+	Sig     string   `json:"sig"`
+	Callees []string `json:"callees"`
+}
+
+//go:embed anchors.json
+var anchorsJSON []byte
+
+var (
+	anchorSnap   map[string]anchorFP
+	anchorRecord = map[string]anchorFP{}
+	anchorNotes  []string
+)
+
+func sigString(sig *types.Signature) string {
+	var b strings.Builder
+	q := func(p *types.Package) string { return p.Path() }
+	for i := 0; i < sig.Params().Len(); i++ {
+		b.WriteString(types.TypeString(sig.Params().At(i).Type(), q))
+		b.WriteString(",")
+	}
+	if sig.Variadic() {
+		b.WriteString("...")
+	}
+	b.WriteString("->")
+	for i := 0; i < sig.Results().Len(); i++ {
+		b.WriteString(types.TypeString(sig.Results().At(i).Type(), q))
+		b.WriteString(",")
+	}
+	return b.String()
+}
+
+func (w *World) fingerprint(f *types.Func) (anchorFP, bool) {
+	fn := w.Prog.FuncValue(f)
+	if fn == nil || fn.Blocks == nil {
+		return anchorFP{}, false
+	}
+	set := map[string]bool{}
+	for _, x := range withClosures(fn) {
+		for _, ci := range callInstrs(x) {
+			if o := calleeObj(ci); o != nil {
+				n := o.Name()
+				if r := recvName(o); r != "" {
+					n = r + "." + n
+				}
+				set[n] = true
+			}
+		}
+	}
+	var cs []string
+	for n := range set {
+		cs = append(cs, n)
+	}
+	sort.Strings(cs)
+	return anchorFP{Sig: sigString(f.Type().(*types.Signature)), Callees: cs}, true
+}
+
+func (w *World) recordAnchor(rel, recv, name string, f *types.Func) {
+	k := rel + "|" + recv + "|" + name
+	if _, has := anchorRecord[k]; has {
+		return
+	}
+	if fp, ok := w.fingerprint(f); ok {
+		anchorRecord[k] = fp
+	}
+}
+
+func (w *World) renamedAnchor(rel, recv, name string) *types.Func {
+	if anchorSnap == nil {
+		anchorSnap = map[string]anchorFP{}
+		_ = json.Unmarshal(anchorsJSON, &anchorSnap)
+	}
+	want, has := anchorSnap[rel+"|"+recv+"|"+name]
+	if !has {
+		return nil
+	}
+	p := w.Pkgs[full(rel)]
+	if p == nil {
+		return nil
+	}
+	var cands []*types.Func
+	if recv == "" {
+		for _, n := range p.Types.Scope().Names() {
+			if f, ok := p.Types.Scope().Lookup(n).(*types.Func); ok {
+				cands = append(cands, f)
+			}
+		}
+	} else if tn, ok := p.Types.Scope().Lookup(recv).(*types.TypeName); ok {
+		if named, ok := tn.Type().(*types.Named); ok {
+			for i := 0; i < named.NumMethods(); i++ {
+				cands = append(cands, named.Method(i))
+			}
+		}
+	}
+	wantSet := map[string]bool{}
+	for _, c := range want.Callees {
+		wantSet[c] = true
+	}
+	best, second := 0.0, 0.0
+	var bestF *types.Func
+	for _, f := range cands {
+		if _, isAnchor := anchorSnap[rel+"|"+recv+"|"+f.Name()]; isAnchor {
+			continue // a function that is an anchor under its own name
+		}
+		fp, ok := w.fingerprint(f)
+		if !ok || fp.Sig != want.Sig {
+			continue
+		}
+		inter, union := 0, len(wantSet)
+		for _, c := range fp.Callees {
+			if wantSet[c] {
+				inter++
+			} else {
+				union++
+			}
+		}
+		score := 1.0
+		if union > 0 {
+			score = float64(inter) / float64(union)
+		}
+		if score > best {
+			best, second, bestF = score, best, f
+		} else if score > second {
+			second = score
+		}
+	}
+	if bestF == nil || best < 0.6 || best-second < 0.15 {
+		return nil
+	}
+	note := fmt.Sprintf("anchor %s.%s.%s does not resolve; taken to be renamed to %s (same receiver and signature, %.0f%% of the recorded callees)", rel, recv, name, bestF.Name(), best*100)
+	anchorNotes = append(anchorNotes, note)
+	fmt.Println("NOTE:", note)
+	renamedFns[bestF] = name
+	return bestF
 }
 
 func (w *World) funcObjOpt(rel, recv, name string) *types.Func {
@@ -306,8 +463,19 @@ func fname(fn *ssa.Function) string {
 	s := fn.String()
 	s = strings.ReplaceAll(s, modPath+"/", "")
 	s = strings.ReplaceAll(s, "(*", "(")
+	// a renamed anchor (and its closures) keeps the recorded name in tables and obligation keys
+	for root := fn; root != nil; root = root.Parent() {
+		if o, ok := root.Object().(*types.Func); ok {
+			if old, has := renamedFns[o]; has {
+				s = strings.Replace(s, "."+o.Name(), "."+old, 1)
+				s = strings.Replace(s, ")."+o.Name(), ")."+old, 1)
+			}
+		}
+	}
 	return s
 }
+
+var renamedFns = map[*types.Func]string{}
 
 // isTestHelperFile reports whether a position lies in a file that is compiled
 // into a production package but is a test helper by its own declaration.
